@@ -5898,7 +5898,6 @@ func (lc *LightningChannel) ReceiveRevocation(revMsg *lnwire.RevokeAndAck) (
 	lc.Lock()
 	defer lc.Unlock()
 
-	store := lc.channelState.RevocationStore
 	revocation, err := chainhash.NewHash(revMsg.Revocation[:])
 	if err != nil {
 		return nil, nil, err
@@ -5917,18 +5916,10 @@ func (lc *LightningChannel) ReceiveRevocation(revMsg *lnwire.RevokeAndAck) (
 		return nil, nil, fmt.Errorf("revocation key mismatch")
 	}
 
-	// Ensure that the new pre-image can be placed in preimage store.
-	if err := store.AddNextEntry(revocation); err != nil {
-		return nil, nil, err
-	}
-
-	// Now that we've verified that the prior commitment has been properly
-	// revoked, we'll advance the revocation state we track for the remote
-	// party: the new current revocation is what was previously the next
-	// revocation, and the new next revocation is set to the key included
-	// in the message.
-	lc.channelState.RemoteCurrentRevocation = lc.channelState.RemoteNextRevocation
-	lc.channelState.RemoteNextRevocation = revMsg.NextRevocationKey
+	// The secret is added to the revocation store, and the revocation
+	// state we track for the remote party is advanced, further below: in
+	// the same step that writes them to disk, with the channel state's
+	// mutex held, so nothing can replace them in between.
 
 	lc.log.Tracef("remote party accepted state transition, revoked height "+
 		"%v, now at %v",
@@ -6088,13 +6079,16 @@ func (lc *LightningChannel) ReceiveRevocation(revMsg *lnwire.RevokeAndAck) (
 		lc.musigSessions.RemoteSession = session
 	}
 
-	// At this point, the revocation has been accepted, and we've rotated
-	// the current revocation key+hash for the remote party. Therefore we
-	// sync now to ensure the revocation producer state is consistent with
-	// the current commitment height and also to advance the on-disk
-	// commitment chain.
-	err = lc.channelState.AdvanceCommitChainTail(
-		fwdPkg, localPeerUpdates,
+	// At this point, the revocation has been verified against the current
+	// commitment point. We now place the pre-image in the revocation store
+	// and rotate the current revocation key+hash for the remote party: the
+	// new current revocation is what was previously the next revocation,
+	// and the new next revocation is the key included in the message. In
+	// the same step we sync to disk, to ensure the revocation state is
+	// consistent with the current commitment height and also to advance
+	// the on-disk commitment chain.
+	err = lc.channelState.AdvanceCommitChainTailWithRevocation(
+		revocation, revMsg.NextRevocationKey, fwdPkg, localPeerUpdates,
 		ourOutputIndex, theirOutputIndex,
 	)
 	if err != nil {
